@@ -78,7 +78,7 @@ def cases(draw, tier):
         wrapped = {'op': 'until', 'notif': ['delay', g], 'children': [], 'body': [op]}
         if draw(st.booleans()):
             # ... or by the failure of a task in a scope of its own around the call (the caller handles that failure)
-            wrapped = {'op': 'scope', 'name': 'G', 'catch': True, 'body': [op], 'children': [
+            wrapped = {'op': 'scope', 'catch': True, 'body': [op], 'children': [
                 {'name': 'gf', 'steps': [{'op': 'sleep', 'd': g}, {'op': 'raise', 'eid': 900, 'cls': 'K'}]}]}
     caller = {'name': 'cl', 'steps': ([{'op': 'sleep', 'd': draw(st.sampled_from([0, 0.5, 1]))}] if draw(st.booleans()) else [])
               + [wrapped, {'op': 'sleep', 'd': 1}, {'op': 'sleep', 'd': 6}]}
